@@ -28,7 +28,13 @@ RULE = ("corpora of 1..3 sentences (all-continuous, with discontinuous trees, on
         "documented 1-based and implemented 0-based indices, TIGER-XML with permuted attributes); "
         "convert: all 4x5 (source, destination) pairs x corpora; chains A->B->A for all 4x4 and A->B->C (quick: a "
         "covering sample, thorough: all 4x4x5); self round trip B->B on the tool's own output for the four "
-        "readable formats; encodings utf-8/latin-1/utf-16 on either side; gzip source; directory source. "
+        "readable formats; encodings utf-8/latin-1/utf-16 on either side; gzip source; directory source; "
+        "long sentences: corpora of one continuous and one discontinuous sentence of 10..13 tokens (two-digit "
+        "token numbers, distinct words) through all 4x5 pairs, the chains A->tigerxml->A and A->tigerxml->C and the "
+        "self round trip of every readable format; encoding spellings: the three encodings under alias spellings "
+        "that Python's codec registry accepts for --src-enc/--dest-enc (utf8, UTF8, utf_8, UTF-8; latin1, "
+        "ISO-8859-1, L1, iso8859_1; UTF-16) with non-ASCII words: every destination format, every spelling for "
+        "TIGER-XML, chains A->tigerxml->B and self round trips written and read back under the alias. "
         "One evaluation = one chain of 1..2 subprocess runs; non-trivial = distinct (clause, formats, encodings, corpus)")
 
 PY = "/venv/bin/python" if os.path.exists("/venv/bin/python") else sys.executable
@@ -37,6 +43,21 @@ DEST_FORMATS = ["export", "brackets", "discobrackets", "tigerxml", "terminals"]
 # see c01.DISCO_BASES: 1 = documented index convention, 0 = what the reader implements (F9); base-0
 # sources are in the domain only while the reader accepts them (c01.reader_zero_based), else skipped
 DISCO_BASES = (0, 1)
+
+
+# The encodings of the property under other spellings that Python's codec registry (which is what
+# --src-enc / --dest-enc are handed to) resolves to the same codec.
+# NOT generated (unchanged code fails, reported to the lead as a residue of F18): the utf-16 spellings
+# utf16 / UTF16 / utf_16 and the utf-8 spelling U8 as --dest-enc of a TIGER-XML file: the writer copies
+# the spelling into the XML declaration, where it is not a name an XML parser knows.
+ENC_SPELLINGS = {
+    "utf-8": ("utf8", "UTF8", "utf_8", "UTF-8"),
+    "latin-1": ("latin1", "ISO-8859-1", "L1", "iso8859_1"),
+    "utf-16": ("UTF-16",),
+}
+ENC_FAMILY = dict((sp, fam) for fam, sps in ENC_SPELLINGS.items() for sp in sps)
+# the name OUR TIGER-XML source files declare for an alias spelling (an IANA name every XML parser knows)
+XML_DECLARED = {"utf-8": "UTF-8", "latin-1": "ISO-8859-1", "utf-16": "UTF-16"}
 
 
 def _in_domain(ctx, w):
@@ -50,6 +71,10 @@ def BOUNDS(ctx):
     return {"corpora_per_pair": 3 if ctx.quick else 36, "sentences": "1..3", "max_tokens": 6 if ctx.quick else 9,
             "pairs": "4x5", "chains_aba": "4x4", "chains_abc": 14 if ctx.quick else 80,
             "encoding_cases": 14 if ctx.quick else 60, "disco_bases": list(DISCO_BASES),
+            "long_corpora": 1 if ctx.quick else 4, "long_tokens": "10..13" if ctx.quick else "10..16",
+            "long_chains_through_tigerxml": 8 if ctx.quick else 20,
+            "encoding_spellings": {k: list(v) for k, v in sorted(ENC_SPELLINGS.items())},
+            "spelling_cases_per_other_destination": 3 if ctx.quick else 36,
             "parallel_evaluations": WORKERS,
             "subprocess_timeout_s": 60}
 
@@ -126,7 +151,9 @@ def render_src(src, specs, encoding):
         return lf.enc_brackets(specs, disco_base=base, **kw).encode(encoding)
     if fmt == "tigerxml":
         permute = kw.pop("permute", True)
-        return lf.enc_tigerxml(specs, rng=rng if permute else None, encoding=encoding, **kw)
+        # an alias spelling names the same bytes; the declaration of OUR file uses the registered name
+        declared = XML_DECLARED[ENC_FAMILY[encoding]] if encoding in ENC_FAMILY else encoding
+        return lf.enc_tigerxml(specs, rng=rng if permute else None, encoding=declared, **kw)
     raise ValueError(fmt)
 
 
@@ -298,7 +325,8 @@ def c_refused(ctx, w):
 
 def c_self(ctx, w):
     """A -> B with the tool, then B -> B: the tool's reader accepts what its writer produced and the
-    second file decodes (with OUR decoder) to the same content as the first"""
+    second file decodes (with OUR decoder) to the same content as the first.  With "enc" in the step,
+    both B files are written -- and the first one is read back -- under that encoding name."""
     fmt = w["steps"][0]["fmt"]
     if not _in_domain(ctx, w):
         raise Skip()
@@ -309,26 +337,29 @@ def c_self(ctx, w):
         if exp["refuse"] is not None:
             raise Skip()
         src_enc = w.get("src_enc", "utf-8")
+        enc = w["steps"][0].get("enc", "utf-8")
         p0 = os.path.join(d, "c0" + SUFFIX[w["src"]["fmt"]])
         lf.write_file(p0, render_src(w["src"], src_specs(w), src_enc))
         p1 = os.path.join(d, "c1" + SUFFIX[fmt])
         p2 = os.path.join(d, "c2" + SUFFIX[fmt])
         opts = w["steps"][0].get("opts", ())
-        rc, tail = run_cli(ctx, d, p0, p1, w["src"]["fmt"], fmt, dest_opts=opts)
+        rc, tail = run_cli(ctx, d, p0, p1, w["src"]["fmt"], fmt, dest_opts=opts,
+                           src_enc=src_enc if src_enc != "utf-8" else None, dest_enc=enc if enc != "utf-8" else None)
         if rc != 0:
             raise Skip()        # the first conversion is judged by `convert`
-        try:
-            first = decode_file(p1, fmt, "utf-8")
-        except lf.DecodeError:
-            raise Skip()        # the writer's output is judged by `convert`
-        rc, tail = run_cli(ctx, d, p1, p2, fmt, fmt, dest_opts=opts)
+        rc, tail = run_cli(ctx, d, p1, p2, fmt, fmt, dest_opts=opts,
+                           src_enc=enc if enc != "utf-8" else None, dest_enc=enc if enc != "utf-8" else None)
         if rc != 0:
             return ("the reader accepts the file its own %s writer produced" % fmt,
                     {"kind": "exit", "step": 2, "exit": rc, "stderr": tail, "from": fmt, "to": fmt})
+        try:
+            first = decode_file(p1, fmt, enc)
+        except (lf.DecodeError, UnicodeError):
+            raise Skip()        # the writer's output is judged by `convert` / `encodings`
         lfld, nfld, sid = lf.CARRY[carry_key(fmt, opts)]
         try:
-            second = decode_file(p2, fmt, "utf-8")
-        except lf.DecodeError as e:
+            second = decode_file(p2, fmt, enc)
+        except (lf.DecodeError, UnicodeError) as e:
             return ("a well-formed %s file" % fmt, {"kind": "undecodable", "what": str(e)[:200]})
         dd = lf.first_diff_t(lf.canon_corpus(_norm(first, False), lfld, nfld, sid),
                              lf.canon_corpus(_norm(second, False), lfld, nfld, sid))
@@ -499,6 +530,35 @@ def _corpus(rng, kind, max_n, words, gap1=False, pos_paren=True):
     return lf.with_sids(specs, sids)
 
 
+def _long_corpus(rng, lo, hi, words):
+    """one continuous and one discontinuous sentence of lo..hi tokens: token numbers (and the ids a
+    writer derives from them) have two digits; the words of a sentence are pairwise distinct, so that
+    a token in the wrong place always shows"""
+    specs = []
+    for want_disc in (False, True):
+        while True:
+            n = rng.randint(lo, hi)
+            s = tg.spec_from_shape(tg.random_shape(rng, n, discont=0.4 if want_disc else 0.0), rng,
+                                   unary_p=0.2, shuffle=True)
+            if lf.spec_is_continuous(s) != want_disc:
+                break
+        lf.decorate(s, rng, words=words)
+        leaves = sorted(tg.spec_leaves(s), key=lambda l: l["n"])
+        if len(words) >= len(leaves):
+            for l, wd in zip(leaves, rng.sample(list(words), len(leaves))):
+                l["w"] = wd
+        specs.append(s)
+    sids = sorted(rng.sample(range(2, 300), len(specs)))
+    return lf.with_sids(specs, sids)
+
+
+def _for_chain(fmts, specs):
+    """the sentences every format of the chain can represent"""
+    if "brackets" in fmts:
+        return [s for s in specs if lf.spec_is_continuous(s)]
+    return specs
+
+
 def _src(fmt, i, rng, base=None):
     if fmt == "export":
         return {"fmt": fmt, "kw": [{"version": 3, "header": True, "comments": True, "bos_extra": True},
@@ -580,6 +640,42 @@ def _items(ctx):
             if sf == "discobrackets" and 1 in DISCO_BASES:
                 w = {"specs": corpora[0][1], "src": _src(sf, n, rng, base=1), "steps": [{"fmt": df, "opts": []}]}
                 yield "convert", w, _key("convert-base1", w, corpora[0][1])
+    # --- long sentences: 10 and more tokens, through every reader and every writer -------
+    # (its own generator, seeded from the run's seed, so that the cases above and below stay what they are)
+    rng2 = random.Random("c03-long-and-spellings/%s" % ctx.seed)
+    lo, hi = [int(x) for x in b["long_tokens"].split("..")]
+    longs = [_long_corpus(rng2, lo, hi, lf.WORDS_NOPAREN) for _ in range(b["long_corpora"])]
+    for i, specs in enumerate(longs):
+        for sf in SRC_FORMATS:
+            for df in DEST_FORMATS:
+                n += 1
+                use = _for_chain([sf], specs)
+                opts = ["export_four"] if (df == "export" and n % 2) else []
+                w = {"specs": use, "src": _src(sf, n, rng), "steps": [{"fmt": df, "opts": opts}]}
+                if df == "brackets" and any(not lf.spec_is_continuous(s) for s in use):
+                    yield "disco_to_brackets_refused", w, _key("refuse-long", w, use)
+                    w2 = dict(w)
+                    w2["steps"] = [{"fmt": df, "opts": ["brackets_skipdisco"]}]
+                    yield "disco_to_brackets_refused", w2, _key("skip-long", w2, use)
+                else:
+                    yield "convert", w, _key("convert-long", w, use)
+    # ... the tool's TIGER-XML (token ids 1..n) read back by the tool: A -> tigerxml -> A, A -> tigerxml -> C,
+    # and the self round trip of every readable format
+    through = [(a, c) for a in SRC_FORMATS for c in DEST_FORMATS]
+    if len(through) > b["long_chains_through_tigerxml"]:
+        through = [(a, a) for a in SRC_FORMATS] + \
+                  [(a, DEST_FORMATS[(j + 1) % len(DEST_FORMATS)]) for j, a in enumerate(SRC_FORMATS)]
+    for j, (a, c) in enumerate(through):
+        specs = _for_chain([a, c], longs[j % len(longs)])
+        w = {"specs": specs, "src": _src(a, j, rng),
+             "steps": [{"fmt": "tigerxml", "opts": []}, {"fmt": c, "opts": []}]}
+        clause = "chain_aba" if a == c else "chain_abc"
+        yield clause, w, _key("long-through-tigerxml", w, specs)
+    for j, bf in enumerate(SRC_FORMATS):
+        for sf in (["export"] if ctx.quick else SRC_FORMATS):
+            specs = _for_chain([sf, bf], longs[j % len(longs)])
+            w = {"specs": specs, "src": _src(sf, j, rng), "steps": [{"fmt": bf, "opts": []}]}
+            yield "self_roundtrip", w, _key("self-long", w, specs)
     # --- a TIGER-XML source without lemma attributes (absent optional field) ----------------
     for df, opts in (("tigerxml", []), ("export", ["export_four"]), ("export", [])):
         src = {"fmt": "tigerxml", "kw": {"permute": True, "omit_lemma": True}, "seed": 5}
@@ -623,6 +719,39 @@ def _items(ctx):
             src["kw"] = {"version": 4}
         w = {"specs": lat, "src": src, "src_enc": se, "steps": [{"fmt": df, "opts": [], "enc": de}]}
         yield "encodings", w, _key("enc", w, lat)
+    # --- the same encodings under other spellings of their names -----------------------------
+    spellings = [sp for fam in ("utf-8", "latin-1", "utf-16") for sp in ENC_SPELLINGS[fam]]
+    firsts = [ENC_SPELLINGS[fam][0] for fam in ("utf-8", "latin-1", "utf-16")]
+
+    def enc_case(sf, j, se, steps):
+        src = _src(sf, j, rng)
+        if sf == "export":
+            src["kw"] = {"version": 4}
+        return {"specs": _for_chain([sf] + [st["fmt"] for st in steps], lat), "src": src, "src_enc": se, "steps": steps}
+    j = 0
+    for df in DEST_FORMATS:
+        # every spelling for TIGER-XML (the one format that names its encoding inside the file)
+        sfs = SRC_FORMATS if not ctx.quick else None
+        for k, de in enumerate(spellings if (df == "tigerxml" or not ctx.quick) else firsts):
+            for sf in (sfs or [SRC_FORMATS[(j + k) % len(SRC_FORMATS)]]):
+                j += 1
+                se = spellings[j % len(spellings)]
+                w = enc_case(sf, j, se, [{"fmt": df, "opts": [], "enc": de}])
+                yield "encodings", w, _key("enc-spelling", w, w["specs"])
+    # ... and the tool reads the file it wrote under that name: A -> tigerxml -> B, B -> B
+    for k, de in enumerate(spellings):
+        for a in (SRC_FORMATS if not ctx.quick else [SRC_FORMATS[k % len(SRC_FORMATS)]]):
+            j += 1
+            c = DEST_FORMATS[(j + k) % len(DEST_FORMATS)]
+            w = enc_case(a, j, spellings[(j + 1) % len(spellings)],
+                         [{"fmt": "tigerxml", "opts": [], "enc": de},
+                          {"fmt": c, "opts": [], "enc": spellings[(j + 2) % len(spellings)]}])
+            yield "encodings", w, _key("enc-spelling-chain", w, w["specs"])
+    for k, bf in enumerate(SRC_FORMATS):
+        for m, de in enumerate(spellings if (bf == "tigerxml" or not ctx.quick) else firsts[k % 3:][:1]):
+            j += 1
+            w = enc_case(["export", "tigerxml"][(k + m) % 2], j, "utf-8", [{"fmt": bf, "opts": [], "enc": de}])
+            yield "self_roundtrip", w, _key("self-spelling", w, w["specs"])
     # --- gzip source, directory source --------------------------------------------------
     for j, sf in enumerate(SRC_FORMATS):
         specs = cont[(j + 1) % len(cont)]
